@@ -215,6 +215,9 @@ pub fn run(ctx: &Ctx) -> i32 {
         budget: Duration::from_secs(tier.pick(120, 1500)),
         only: ctx.only,
     };
+    // "never hangs": a simulated scenario whose thread is diagnosed as spinning inside the library
+    // is a verdict (the watchdog by itself never is)
+    runner::set_spin_is_violation(true);
     let summary: Summary = runner::run_scenarios(&cfg, move |i, s| if i < n_trials { teardown_trial(i, s) } else { sim_scenario(i - n_trials, s) });
     runner::finish(Report {
         property: "C08",
